@@ -142,6 +142,12 @@ Theorem C09_key_roundtrip_int : forall kn i k,
 Proof. exact key_rt_int. Qed.
 Print Assumptions C09_key_roundtrip_int.
 
+Theorem C09_key_roundtrip_bool : forall kn k,
+  n_typ kn = typeBasic -> n_typn kn = "bool"%string -> n_typu kn = "bool"%string ->
+  wtb kn k = true -> k <> VPtr None -> key_rt kn k.
+Proof. exact key_rt_bool. Qed.
+Print Assumptions C09_key_roundtrip_bool.
+
 Theorem C09_keys_ok_string_int : forall kn vn kvs,
   n_typ kn = typeBasic ->
   (n_typn kn = "string"%string /\ n_typu kn = "string"%string) \/
@@ -212,6 +218,17 @@ Example C09_demo :
   loop_method (script_of "1" "") id_ord n (APtr (Some v)) ["F"; "zz"] = Ret [] None /\
   loop_method (script_of "1" "") id_ord n (APtr (Some v)) ["F"; "k"; "0"; "S"] = Ret [] None.
 Proof. vm_compute. repeat split; reflexivity. Qed.
+
+(* bool keys (the emitted code compiles since the fourth fix) and pointer bool keys *)
+Example C09_demo_bool_keys :
+  let n := GenC09.root_node ("T", TStruct [("F", TMap (TScalar SBool) Shapes.t_int32); ("G", TMap (TPtr (TScalar SBool)) Shapes.t_string)]) in
+  let v := VStruct [VMap false [(VBool true, VInt 1%Z); (VBool false, VInt 2%Z)]; VMap false [(VPtr (Some (VBool false)), VStr "no")]] in
+  loop_method (script_of "1" "") id_ord n (APtr (Some v)) ["F"] =
+    Ret [ERequireKey true; ESetKey "true" "static"; ESetVal (VInt 1%Z) "static"; EIterate CNone;
+         ERequireKey true; ESetKey "false" "static"; ESetVal (VInt 2%Z) "static"; EIterate CNone] None /\
+  loop_method (script_of "1" "") id_ord n (APtr (Some v)) ["G"] =
+    Ret [ERequireKey true; ESetKey "false" "static"; ESetVal (VStr "no") "static"; EIterate CNone] None.
+Proof. vm_compute. split; reflexivity. Qed.
 
 (* a root map type on the empty path, integer keys *)
 Example C09_demo_root_map :
